@@ -476,7 +476,7 @@ type walkOpts struct {
 	// edge is called for every CFG edge about to be taken. label is
 	// "nil"/"nonnil" when the If tests a tracked value, "" otherwise.
 	// Returning true prunes that edge.
-	edge func(from, to *ssa.BasicBlock, label string, cond ssa.Value, onTrue bool) (prune bool)
+	edge func(from, to *ssa.BasicBlock, label string, cond ssa.Value, onTrue bool, t *tracker) (prune bool)
 }
 
 // walk explores every CFG path from start (path-sensitive only in the
@@ -533,7 +533,7 @@ func walk(start point, o walkOpts) {
 					}
 				}
 			}
-			if o.edge != nil && o.edge(b, s, label, cond, onTrue) {
+			if o.edge != nil && o.edge(b, s, label, cond, onTrue, t) {
 				continue
 			}
 			nt := t.clone()
@@ -576,7 +576,7 @@ func guardedBySuccess(k *ssa.Call, s ssa.Instruction) bool {
 			}
 			return false
 		},
-		edge: func(from, to *ssa.BasicBlock, label string, cond ssa.Value, onTrue bool) bool {
+		edge: func(from, to *ssa.BasicBlock, label string, cond ssa.Value, onTrue bool, _ *tracker) bool {
 			return label == "nil"
 		},
 	})
@@ -597,7 +597,7 @@ func mustPrecede(f *ssa.Function, s ssa.Instruction, via func(ssa.Instruction) b
 			}
 			return via(i)
 		},
-		edge: func(from, to *ssa.BasicBlock, label string, cond ssa.Value, onTrue bool) bool {
+		edge: func(from, to *ssa.BasicBlock, label string, cond ssa.Value, onTrue bool, _ *tracker) bool {
 			return skipEdge != nil && skipEdge(from, to, cond, onTrue)
 		},
 	})
@@ -620,7 +620,7 @@ func reachableFrom(src ssa.Instruction, target func(ssa.Instruction) bool, stop 
 			}
 			return stop != nil && stop(i)
 		},
-		edge: func(from, to *ssa.BasicBlock, label string, cond ssa.Value, onTrue bool) bool {
+		edge: func(from, to *ssa.BasicBlock, label string, cond ssa.Value, onTrue bool, _ *tracker) bool {
 			return hit != nil || (skipEdge != nil && skipEdge(from, to, cond, onTrue))
 		},
 	})
